@@ -854,6 +854,9 @@ static iwrc _fsm_blk_deallocate_lw(
 
   if (IW_UNLIKELY(fsm->oflags & IWFSM_STRICT)) {
     bopts |= FSM_BM_STRICT;
+    /* Refuse a range which is not fully allocated before any bit is cleared */
+    rc = _fsm_set_bit_status_lw(fsm, offset_blk, length_blk, 0, FSM_BM_STRICT | FSM_BM_DRY_RUN);
+    RCRET(rc);
   }
   rc = _fsm_set_bit_status_lw(fsm, offset_blk, length_blk, 0, bopts);
   RCRET(rc);
